@@ -70,14 +70,14 @@ def parse_template(path):
             body = s[3:].strip()
             word = body.split()[0] if body else ''
             rest = body[len(word):].strip()
-            if word in ('fn', 'block', 'type'):
+            if word in ('fn', 'block', 'type', 'handlerstubs'):
                 if cur is not None:
                     raise ExtractError('%s:%d nested directive' % (path, ln))
                 if raw:
                     segs.append('\n'.join(raw)); raw = []
                 cur = Directive(word, _split_args(rest), ln, path)
                 sec = None
-                if word == 'type':
+                if word in ('type', 'handlerstubs'):
                     segs.append(cur); cur = None
                 continue
             if word == 'end':
@@ -640,6 +640,44 @@ def emit_type(d, report):
     return text
 
 
+def emit_handler_stubs(d, report):
+    """one trusted stub per command handler, generated from the REAL signature; the gated ones (all but `ungated=`, the six
+    verbs the property statement lists) carry `requires old(conn_state).user_state.authenticated`, so that the registration
+    gate of the dispatcher becomes a call-site obligation."""
+    files = (d.opt('files') or '').split(',')
+    ungated = set((d.opt('ungated') or '').split(','))
+    skip = set((d.opt('skip') or '').split(','))
+    out = []
+    names = []
+    for rel in files:
+        src = read_src(rel)
+        for it in rustlex.items(src):
+            if it.kind != 'fn' or it.owner != 'MainState' or not it.name.startswith('process_') or it.name in skip:
+                continue
+            if any(re.search(r'cfg\s*\(\s*feature', a) for a in it.attrs) or it.body_start is None:
+                continue
+            sig, _ = split_fn(src, it)
+            counts = {}
+            sig = rule_r11_sig(sig, counts)
+            sig = rule_r2_sig(sig, counts)
+            sig = name_return(sig, 'r')
+            if not re.search(r'\bpub\b', sig):
+                sig = re.sub(r'^(\s*)(async\s+)?fn', r'\1pub \2fn', sig, count=1)
+            out.append('    #[verifier::external_body]')
+            out.append(sig.rstrip())
+            if it.name not in ungated:
+                out.append('        requires old(conn_state).user_state.authenticated, // @prop C03')
+            out.append('    { unimplemented!() }')
+            names.append(it.name)
+    report.setdefault('handler_stubs', []).extend(names)
+    if not names:
+        raise ExtractError('handlerstubs: no handler found')
+    for u in ungated:
+        if u and u not in names:
+            raise ExtractError('lost anchor: ungated handler %s not found' % u)
+    return '\n'.join(out)
+
+
 def split_fn(src, it):
     head = src[it.start:it.sig_end]
     body = src[it.body_start + 1:it.body_end]
@@ -724,7 +762,7 @@ def emit_fn(d, unit, report, canaries):
             frx = d.opt('from'); trx = d.opt('to')
             a = find_line(lines, frx.lstrip('~'), 1, fname + ' block-from')
             after = lines[a:]
-            b = find_line(after, trx.lstrip('~'), 1, fname + ' block-to') + a
+            b = find_line(after, trx.lstrip('~'), 1, fname + ' block-to') + a + int(d.opt('plus', '0'))
             body = '\n'.join(lines[a:b + 1])
         heads = [t for (n, _, t) in d.sections if n == 'head']
         if not heads:
@@ -940,6 +978,8 @@ def build_unit(world_files, unit, outdir):
                 main_lines.extend(seg.split('\n'))
             elif seg.kind == 'type':
                 main_lines.extend(emit_type(seg, report).split('\n'))
+            elif seg.kind == 'handlerstubs':
+                main_lines.extend(emit_handler_stubs(seg, report).split('\n'))
             else:
                 txt, _can = emit_fn(seg, unit, report, None)
                 s = len(main_lines) + 1
@@ -976,6 +1016,8 @@ def build_canary_unit(world_files, unit, outdir):
                 lines.extend(seg.split('\n'))
             elif seg.kind == 'type':
                 lines.extend(emit_type(seg, report).split('\n'))
+            elif seg.kind == 'handlerstubs':
+                lines.extend(emit_handler_stubs(seg, report).split('\n'))
             else:
                 txt, can = emit_fn(seg, unit, report, None)
                 home = seg.opt('unit')
